@@ -303,6 +303,7 @@ package motion
 //@   ensures [C03] (old(mp.isRecording) || mp.recorder.starts != old(mp.recorder.starts)) && !mp.recorder.wfault ==> ((mp.recorder.stops == old(mp.recorder.stops) + 1) == ((mp.recorder.starts != old(mp.recorder.starts) ? 1 : old(mp.framesWritten) + 1) >= min((mp.recorder.starts != old(mp.recorder.starts) ? 0 : (mp.gMotion ? old(mp.framesWritten) : old(mp.lastMotionFW))) + mp.minFrames, mp.maxFrames)))
 //@   ensures [C03] !(old(mp.isRecording) || mp.recorder.starts != old(mp.recorder.starts)) ==> mp.recorder.stops == old(mp.recorder.stops)
 //@   ensures [C03] mp.recorder.stops == old(mp.recorder.stops) || mp.recorder.stops == old(mp.recorder.stops) + 1
+//@   ensures [C20] ncalls("Printf") >= (ncalls("canStartWriting") == 1 && callres("canStartWriting", 1) != nil ? 1 : 0) + (ncalls("startRecording") == 1 && callres("startRecording", 1) != nil ? 1 : 0) + (ncalls("WriteFrame") == 1 && callres("WriteFrame", 1) != nil ? 1 : 0) + (ncalls("stopRecording") == 1 && callres("stopRecording", 1) != nil ? 1 : 0)
 //@   ensures [C20] ncalls("log.Printf") == 0 && ncalls("log.Print") == 0 && ncalls("log.Println") == 0
 
 //@ func (mp *MotionProcessor) stopConstantRecorder
@@ -327,6 +328,7 @@ package motion
 //@   ensures [C17] mp.constantRecording && mp.constantRecorder.writes == old(mp.constantRecorder.writes) ==> mp.constantRecorder.stops == old(mp.constantRecorder.stops)
 //@   ensures [C17] ncalls("WriteFrame") == 1 ==> callarg("WriteFrame", 1, 1) == frame
 //@   ensures [C17] !mp.constantRecording ==> ncalls("WriteFrame") == 0 && ncalls("StartRecording") == 0 && ncalls("StopRecording") == 0
+//@   ensures [C20] ncalls("Printf") >= (ncalls("StartRecording") == 1 && callres("StartRecording", 1) != nil ? 1 : 0) + (ncalls("StopRecording") == 1 && callres("StopRecording", 1) != nil ? 1 : 0)
 //@   ensures [C20] ncalls("log.Printf") == 0 && ncalls("log.Print") == 0 && ncalls("log.Println") == 0
 
 //@ func (mp *MotionProcessor) processSnapshot
@@ -344,6 +346,7 @@ package motion
 //@   ensures [C17] old(mp.snapTidy()) && mp.snapshotRecorder.inFile == 21 && mp.snapshotRecorder.writes != old(mp.snapshotRecorder.writes) ==> mp.snapshotRecorder.stops == old(mp.snapshotRecorder.stops) + 1
 //@   ensures [C17] ncalls("WriteFrame") == 1 ==> callarg("WriteFrame", 1, 1) == frame
 //@   ensures [C17] !old(mp.StartSnapshot) && !old(mp.SnapshotRecording) ==> ncalls("WriteFrame") == 0 && ncalls("StartRecording") == 0 && ncalls("StopRecording") == 0
+//@   ensures [C20] ncalls("Printf") >= (ncalls("StartRecording") == 1 && callres("StartRecording", 1) != nil ? 1 : 0) + (ncalls("StopRecording") == 1 && callres("StopRecording", 1) != nil ? 1 : 0)
 //@   ensures [C20] ncalls("log.Printf") == 0 && ncalls("log.Print") == 0 && ncalls("log.Println") == 0
 
 //@ func NewMotionProcessor
